@@ -29,7 +29,9 @@ def build_matrix(ctx):
     if not ctx.quick:
         return [b + (None,) for b in full] + [san, ("gcc", "-O2", 1, 0, "asan")]
     rng = random.Random(ctx.seed * 7919 + 1)
-    third = rng.choice([b for b in full if b not in (("gcc", "-O2", 0, 0),) and b[1] in ("-O0", "-O3")])
+    # quick: gcc -O2 as a user would build it (strict aliasing on, expanded tables), clang under ASan/UBSan with the
+    # small tables, and one seeded member of the rest of the matrix with an extreme optimisation level
+    third = rng.choice([b for b in full if b[1] in ("-O0", "-O3") and not (b[0] == "gcc" and b[2] == 0 and b[3] == 0)])
     return [("gcc", "-O2", 0, 0, None), san, third + (None,)]
 
 def bname(b):
@@ -162,7 +164,7 @@ class Corpus:
         self.gost = {}   # (jobid, op, cls, mode, in, out) -> info
         self.tr = {}     # (ctrhex, trace text) -> info
         self.x = collections.Counter(); self.xsample = {}
-        self.self = {}
+        self.self = {}; self.selfdiag = {}
         self.executions = 0
     def _add(self, d, key, n, bn, first):
         e = d.get(key)
@@ -190,8 +192,10 @@ class Corpus:
                 elif t == "X":
                     what = " ".join(ln.split()[2:4]) if "oob" in ln else ln.split()[2].split("=")[0]
                     self.x[what] += 1; self.xsample.setdefault(what, (bn, jobs[jid]["line"][:300], ln))
-                elif t == "S":
+                elif t == "S" and ln.startswith("S chacha_self_test="):
                     self.self[bn] = ln
+                elif jid == "self":
+                    self.selfdiag.setdefault(bn, []).append(ln[:200])      # gost28147_self_test prints its mismatches
                 else:
                     raise common.Infra("unparsable driver line: " + ln[:200])
 
@@ -246,8 +250,8 @@ def scope_of(builds, battr, tables):
 
 def judge(ctx, pool, d, jobs, battr, module, tag, items, nproc, keyfn, scoped_prefix, tables):
     """Evaluate every distinct record in TLC; key the mismatches.
-    A wrong output whose very input gave the right output in another build is build-dependent and keyed by the
-    attributes the failing builds share; otherwise it is keyed by function / dispatch class / mode."""
+    A wrong output for an input that some other build handles correctly in ALL its executions is build-dependent and
+    keyed by the attributes the failing builds share; otherwise it is keyed by function / dispatch class / mode."""
     uniq = {}; order = []
     for i, it in enumerate(items):
         k = json.dumps(it["rec"], sort_keys=True); it["u"] = k
@@ -256,14 +260,20 @@ def judge(ctx, pool, d, jobs, battr, module, tag, items, nproc, keyfn, scoped_pr
     bad_u, results = tlc_eval(module, [items[i]["rec"] for i in order], d, tag, nproc, pool)
     for r in results: ctx.tlc_stats(r, module + " (mode C)")
     nblocks = sum((items[i]["rec"].get("n", 32) + 63) // 64 for i in order)
-    good_sibs = set(it["sib"] for it in items if uniq[it["u"]] not in bad_u)
+    # per input (sibling group): which builds produced a wrong output, which produced only right ones.  Every build
+    # runs exactly the same executions, so a build without any wrong output for this input shows that the failure
+    # depends on the build and not on the input / alignment / split.
+    sib_all = collections.defaultdict(set); sib_bad = collections.defaultdict(set)
+    for it in items:
+        sib_all[it["sib"]] |= it["info"]["builds"]
+        if uniq[it["u"]] in bad_u: sib_bad[it["sib"]] |= it["info"]["builds"]
     groups = collections.defaultdict(list); tested = collections.defaultdict(lambda: collections.defaultdict(set))
     bad_builds = set()
     for it in items:
         for dn, dv in it["dims"].items(): tested[it["gk"]][dn].add(dv)
         if uniq[it["u"]] in bad_u:
             bad_builds |= it["info"]["builds"]
-            if it["sib"] in good_sibs: groups[("scoped", scope_of(it["info"]["builds"], battr, tables))].append(it)
+            if sib_all[it["sib"]] - sib_bad[it["sib"]]: groups[("scoped", scope_of(sib_bad[it["sib"]], battr, tables))].append(it)
             else: groups[("plain", it["gk"])].append(it)
     # expected values for the representatives that TLC did not keep
     reps = {g: lst[0] for g, lst in groups.items()}
@@ -448,7 +458,7 @@ def run(ctx):
                 if fn == "chacha_self_test" and bn in cc_bad_builds:
                     ctx.log("note: %s=%s in build %s - consistent with the wrong ChaCha outputs already reported for that build" % (fn, f.get(fn), bn))
                 else:
-                    selfbad[fn].append((bn, ln))
+                    selfbad[fn].append((bn, ln, corpus.selfdiag.get(bn, [])[:4]))
     for fn, lst in selfbad.items():
         ctx.fail("selftest:%s:nonzero" % fn, "the header's own self test (never compiled by the suite) fails although every output the check "
                  "looked at was right, in builds: %s" % lst, {"builds": [x[0] for x in lst]})
